@@ -23,13 +23,23 @@ EXPLANATION = (
     "prefix strip are reported); (10) abstract execution of each file-cap constructor on the values its parser decodes "
     "(bytes of the regex group's byte length, ints; hashutil results have the constant truncate_to length) and of "
     "to_string on the resulting object: no length/type guard or assertion rejects them and every field to_string "
-    "writes holds its constructor parameter on that path. "
+    "writes holds its constructor parameter on that path; (11) abstract execution of from_string on inputs of which only "
+    "the leading bytes are known, per cap class and in both contexts: two stacked alleged prefixes (every ordered pair of "
+    "'ro.'/'imm.') in front of the BASE_STRING certainly end in UnknownURI(unmodified input) - at most one prefix is ever "
+    "removed, so such strings (outside the grammar) are never read as a known kind; (12) likewise: BASE_STRING.. ends in "
+    "that class's parser applied to the unmodified input, prefix+BASE_STRING.. in that parser applied to the input minus "
+    "exactly the prefix or in UnknownURI(input), and white space in front of the BASE_STRING (or between prefix and "
+    "BASE_STRING) ends in UnknownURI(input): nothing but one alleged prefix is removed and neither end is trimmed "
+    "(strip/lstrip/rstrip of the input or of the working copy are reported). "
     "Undecided: base32 a2b/b2a arithmetic itself (value level), int() of huge digit strings, the free-form MDMF "
-    "extension fields (explicitly allowed to be dropped); what from_string does with 'ro.'/'imm.'-prefixed strings and "
-    "deep_immutable=True (flag clearing, the error/kind reported for a constraint failure - property C16), str inputs "
+    "extension fields (explicitly allowed to be dropped); which kinds from_string refuses behind a 'ro.'/'imm.' prefix or "
+    "with deep_immutable=True (flag clearing, the error/kind reported for a constraint failure - property C16), str inputs "
     "(the encode step) and non-bytes arguments; that _SHA256d_Hasher really truncates to truncate_to (value level); "
     "paths of the abstract executions whose tests are not decided by the scenario are followed on both sides and "
-    "only certain outcomes are reported.")
+    "only certain outcomes are reported; rules 11/12 give ANALYSIS-ERROR when a scenario's outcome is not decided by "
+    "the known leading bytes (prefix handling moved into helpers, loops over a prefix table, regex-based prefix tests), and "
+    "they examine the listed scenarios only (other junk than white space, other transformations than slices and the strip "
+    "family are not modelled).")
 TECHNIQUE = ("static analysis: regex-AST language checks on constant-folded patterns, template/decoder pairing, CFG dominance "
              "in from_string, bounded abstract interpretation of from_string / cap constructors / to_string over the CFG")
 
@@ -366,7 +376,10 @@ def _concat(fnorm, node, e, left_path, right_forms):
 # Abstract values: IN (from_string's input: bytes that start with the class's BASE_STRING, no alleged prefix),
 # CUT (a proper part of it), ("b", nbytes|None, origin) bytes of a known length, ("i", origin) an int,
 # ("c", v) a known constant, UNK.
+# ("h", head, cut, pure): bytes whose leading bytes are `head`, followed by a tail that is not known (possibly empty);
+# it is input[cut:] (cut None: not known) and `pure` says that nothing else was done to it (no strip of either end).
 IN, CUT, UNK = ("in",), ("cut",), ("?",)
+WS = b" \t\n\r\x0b\x0c"                          # what bytes.strip() removes by default
 _TYPES = {"bytes": bytes, "str": str, "int": int, "bool": bool}
 OPAQUE = "!opaque"
 
@@ -387,7 +400,48 @@ def _truth(v):
         return bool(v[1])
     if v[0] == "b" and v[1] is not None:
         return v[1] > 0
+    if v[0] == "h" and v[1]:
+        return True
     return None
+
+
+def _h_startswith(head, ps):
+    """Truth of value.startswith(ps) for a value with the known leading bytes `head` (None: depends on the tail)."""
+    res = False
+    for x in ps:
+        if head.startswith(x):
+            return True
+        if x.startswith(head):
+            res = None
+    return res
+
+
+def _h_slice(v, lo, hi):
+    """v[lo:hi] for an ("h", ..) value and known non-negative bounds (hi None: open)."""
+    _h, head, cut, pure = v
+    if hi is None:
+        return ("h", head[lo:], None if cut is None else cut + lo, pure)
+    if hi <= len(head):
+        return ("c", head[lo:hi])
+    return ("h", head[lo:], None, False)
+
+
+def _h_strip(v, chars, left, right):
+    _h, head, cut, pure = v
+    if not chars:
+        return v
+    if left:
+        h2 = head.lstrip(chars)
+        if not h2:
+            head, cut, pure = b"", None, False     # how much of the tail goes as well is not known
+        else:
+            cut = None if cut is None else cut + len(head) - len(h2)
+            head = h2
+    if right:
+        if head.rstrip(chars) != head:
+            return UNK
+        pure = False                               # the tail may lose bytes
+    return ("h", head, cut, pure)
 
 
 def _hash_len(idx, F, module, call, depth=3):
@@ -462,8 +516,13 @@ class _AI:
                                   ast.GtE: a[1] >= b[1]}[type(op)])
             elif isinstance(op, (ast.Is, ast.IsNot)):
                 for x, y in ((a, b), (b, a)):
-                    if x == ("c", None) and (y in (IN, CUT) or y[0] in ("b", "i")):
+                    if x == ("c", None) and (y in (IN, CUT) or y[0] in ("b", "i", "h")):
                         return ("c", isinstance(op, ast.IsNot))
+            elif isinstance(op, (ast.Eq, ast.NotEq)):
+                for x, y in ((a, b), (b, a)):
+                    if x[0] == "h" and y[0] == "c":
+                        if not isinstance(y[1], bytes) or not y[1].startswith(x[1]):
+                            return ("c", isinstance(op, ast.NotEq))
             return UNK
         elif isinstance(e, ast.Subscript):
             v = self.ev(e.value, env)
@@ -472,14 +531,33 @@ class _AI:
                 if isinstance(sl, ast.Slice) and sl.upper is None and sl.step is None and (
                         sl.lower is None or self.ev(sl.lower, env) == ("c", 0)):
                     return v
+                if v == IN and self.base is not None and isinstance(sl, ast.Slice) and sl.step is None \
+                        and sl.upper is not None and (sl.lower is None or self.ev(sl.lower, env) == ("c", 0)):
+                    hi = self.ev(sl.upper, env)
+                    if hi[0] == "c" and type(hi[1]) is int and 0 <= hi[1] <= len(self.base):
+                        return ("c", self.base[:hi[1]])      # a prefix test written as a slice comparison
                 return CUT
+            if v[0] == "h":
+                sl = e.slice
+                if isinstance(sl, ast.Slice):
+                    if sl.step is not None:
+                        return UNK
+                    lo = ("c", 0) if sl.lower is None else self.ev(sl.lower, env)
+                    hi = ("c", None) if sl.upper is None else self.ev(sl.upper, env)
+                    for b in (lo, hi):
+                        if b[0] != "c" or not (b[1] is None or (type(b[1]) is int and b[1] >= 0)):
+                            return UNK
+                    return _h_slice(v, lo[1] or 0, hi[1])
+                i = self.ev(sl, env)
+                if i[0] == "c" and type(i[1]) is int and 0 <= i[1] < len(v[1]):
+                    return ("c", v[1][i[1]])
             return UNK
         elif isinstance(e, ast.Call) and not e.keywords:
             if isinstance(e.func, ast.Name) and e.func.id == "isinstance" and len(e.args) == 2 and "isinstance" not in env:
                 v = self.ev(e.args[0], env)
                 ts = e.args[1].elts if isinstance(e.args[1], ast.Tuple) else [e.args[1]]
                 if all(isinstance(t, ast.Name) and t.id in _TYPES and t.id not in env for t in ts):
-                    if v in (IN, CUT) or v[0] == "b":
+                    if v in (IN, CUT) or v[0] in ("b", "h"):
                         return ("c", any(t.id == "bytes" for t in ts))
                     if v[0] == "i":
                         return ("c", any(t.id == "int" for t in ts))
@@ -500,6 +578,18 @@ class _AI:
                     if any(x.startswith(base) for x in ps):
                         return UNK          # depends on the bytes after BASE_STRING
                     return ("c", False)
+                if v[0] == "h" and p[0] == "c":
+                    ps = p[1] if isinstance(p[1], tuple) else (p[1],)
+                    if not all(isinstance(x, bytes) for x in ps):
+                        return UNK
+                    t = _h_startswith(v[1], ps)
+                    return UNK if t is None else ("c", t)
+                return UNK
+            if isinstance(e.func, ast.Attribute) and e.func.attr in ("strip", "lstrip", "rstrip") and len(e.args) <= 1:
+                v = self.ev(e.func.value, env)
+                c = self.ev(e.args[0], env) if e.args else ("c", None)
+                if v[0] == "h" and c[0] == "c" and (c[1] is None or isinstance(c[1], bytes)):
+                    return _h_strip(v, WS if c[1] is None else c[1], e.func.attr != "rstrip", e.func.attr != "lstrip")
                 return UNK
             if isinstance(e.func, ast.Name) and e.func.id == "len" and len(e.args) == 1 and "len" not in env:
                 v = self.ev(e.args[0], env)
@@ -633,6 +723,64 @@ def _abstract_run(idx, F, fn, cfg, base):
                     argv = ai.ev(a0, env) if a0 is not None else UNK
         out.append((n, what, argv, exact, w))
     return out, nstates
+
+
+def _scenario_run(idx, F, fn, head, extra=None):
+    """from_string on a bytes input whose leading bytes are `head` (nothing known about the rest), the other
+    parameters at their defaults / `extra` -> ([(node, what, argument value, exact, witness)], states) with
+    what = ('parse', class qual) | ('unknown',) | ('other',) | ('raise',) | ('end',)."""
+    ai = _AI(idx, F, fn, None)
+    ps = first_positional_params(fn)
+    if not ps:
+        raise AnchorVanished("%s has no positional parameter" % fn.qual)
+    given = {ps[0]: ("h", head, 0, True)}
+    given.update(extra or {})
+    outs, nstates = ai.run(given)
+    out = []
+    for (n, kind, env, exact, w) in outs:
+        what, argv = (kind,), UNK
+        if kind == "return":
+            v = n.ast.value
+            what = ("other",)
+            if isinstance(v, ast.Call) and call_tail(v) == "init_from_string" and isinstance(v.func, ast.Attribute):
+                k = idx.resolve_expr(fn.module, v.func.value)
+                if isinstance(k, ClassInfo):
+                    what = ("parse", k.qual)
+                    a0 = arg(v, 0, "uri")
+                    argv = ai.ev(a0, env) if a0 is not None else UNK
+            elif isinstance(v, ast.Call):
+                k = idx.resolve_expr(fn.module, v.func)
+                if isinstance(k, ClassInfo) and k.name == "UnknownURI":
+                    what = ("unknown",)
+                    init = k.lookup("__init__")
+                    pn = init.params[1] if init is not None and len(init.params) > 1 else "uri"
+                    a0 = arg(v, 0, pn)
+                    argv = ai.ev(a0, env) if a0 is not None else UNK
+        out.append((n, what, argv, exact, w))
+    return out, nstates
+
+
+def _certain(outcomes):
+    """The one outcome the scenario certainly has (every test on its path was decided), or None."""
+    ex = [o for o in outcomes if o[3]]
+    return ex[0] if len(ex) == 1 and len(outcomes) == 1 else None
+
+
+def _alleged_prefixes(idx, F):
+    m = idx.module(URI_MOD)
+    names = sorted(n for n in m.assigns if n.startswith("ALLEGED_") and n.endswith("_PREFIX"))
+    out = []
+    for n in names:
+        try:
+            v = F.fold(ast.Name(id=n, ctx=ast.Load()), m, None)
+        except NotConstant as e:
+            raise AnalysisError("cannot fold allmydata.uri.%s: %s" % (n, e))
+        if not isinstance(v, bytes) or not v:
+            raise AnalysisError("allmydata.uri.%s is not a non-empty bytes constant" % n)
+        out.append((n, v))
+    if len(out) < 2:
+        raise AnchorVanished("expected the two ALLEGED_*_PREFIX constants in allmydata.uri, found %s" % [n for n, _v in out])
+    return out
 
 
 def _outcome_text(fn, o):
@@ -1197,3 +1345,118 @@ def run(ctx: Context):
                         ci.name, _outcome_text(ts, o)), o[4])
             if not any(o[1] == "return" for o in outs):
                 r.violation(ci.qual, ts.loc(), "%s.to_string cannot reach a return for an object built from a parsed cap" % ci.name)
+
+    # -- 11 / 12. what from_string removes from the input before the dispatch ----
+    fn = idx.func("uri:from_string")
+    all_classes = {c.qual: c for c in files + dirs}
+    prefixes = _alleged_prefixes(idx, F)
+    contexts = [("", {})]
+    if "deep_immutable" in fn.params:
+        contexts.append((", deep_immutable=True", {"deep_immutable": ("c", True)}))
+
+    def show(head):
+        return "%r..." % head
+
+    def scenario_rule(r, scen_of):
+        """scen_of(class, BASE_STRING) -> [(head, extra, label, allowed)]; allowed(what, argv) -> None if the certain
+        outcome is acceptable, else the text of what is wrong.  One violation per cap class; scenarios whose
+        outcome is not certain (a test on the path is not decided by the known leading bytes) -> ANALYSIS-ERROR."""
+        undecided = []
+        for q, k in sorted(all_classes.items()):
+            base = _fold_bytes(F, k, "BASE_STRING")
+            r.site(fn, None, k.name)
+            bad = []
+            for (head, extra, label, allowed) in scen_of(k, base):
+                outcomes, nstates = _scenario_run(idx, F, fn, head, extra)
+                r.count(nstates)
+                o = _certain(outcomes)
+                if o is None or o[1] == ("other",):
+                    undecided.append("from_string(%s%s)" % (show(head), label))
+                    continue
+                why = allowed(o[1], o[2])
+                if why:
+                    bad.append((head, label, why, o))
+            if bad:
+                (head, label, why, o) = bad[0]
+                more = sorted({"%s%s" % (show(h), l) for (h, l, _w, _o) in bad[1:]})
+                r.violation(q, fn.loc(o[0].ast) if o[0].ast is not None else fn.loc(),
+                            "from_string(%s%s) %s%s" % (show(head), label, why,
+                                                        ("; likewise %s" % ", ".join(more[:6])) if more else ""), o[4])
+        if undecided and not r.violations:
+            raise AnalysisError("the outcome of %d scenario(s) is not decided by the leading bytes, e.g. %s" % (
+                len(undecided), undecided[0]))
+
+    def names_of(what):
+        return all_classes[what[1]].name if what[1] in all_classes else what[1]
+
+    # -- 11. at most one alleged prefix is removed --------------------------
+    with ctx.rule("C15.11", "R3", "from_string removes at most one alleged-constraint prefix: a string with two stacked "
+                  "prefixes (every ordered pair of 'ro.'/'imm.') in front of a cap class's BASE_STRING, in either context, "
+                  "certainly ends in UnknownURI(the unmodified input) - it is outside the grammar and no parser sees it "
+                  "(abstract execution of the CFG on the known leading bytes, per cap class)", expected=18) as r:
+        def stacked(k, base):
+            def allowed(head):
+                def f(what, argv):
+                    if what[0] == "parse":
+                        return ("is handed to %s.init_from_string (as input[%s:]): more than one alleged prefix is removed, so "
+                                "a string outside the cap grammar is read as a %s cap and re-serialises without the "
+                                "prefixes" % (names_of(what), argv[2] if argv[0] == "h" else "?", names_of(what)))
+                    if what == ("unknown",):
+                        return None if argv == ("h", head, 0, True) else (
+                            "becomes an UnknownURI that does not hold the unmodified input")
+                    return "%s instead of returning UnknownURI(input)" % (
+                        "raises" if what == ("raise",) else "falls off the end of the function")
+                return f
+            out = []
+            for (_n1, p1) in prefixes:
+                for (_n2, p2) in prefixes:
+                    for (label, extra) in contexts:
+                        out.append((p1 + p2 + base, extra, label, allowed(p1 + p2 + base)))
+            return out
+        scenario_rule(r, stacked)
+
+    # -- 12. nothing but one alleged prefix is removed ----------------------
+    with ctx.rule("C15.12", "R3", "the string from_string hands to a kind parser is the input itself or the input minus "
+                  "exactly one leading alleged prefix, neither end trimmed: BASE_STRING.. certainly ends in that class's "
+                  "parser on the unmodified input; prefix+BASE_STRING.. in that parser on input[len(prefix):] or in "
+                  "UnknownURI(input); white space before the BASE_STRING or between prefix and BASE_STRING certainly ends "
+                  "in UnknownURI(input) (abstract execution of the CFG on the known leading bytes, per cap class)",
+                  expected=18) as r:
+        JUNK = (b" ", b"\n")
+
+        def trimmed(k, base):
+            def allowed(head, cut, may_parse):
+                def f(what, argv):
+                    if what[0] == "parse":
+                        if not may_parse:
+                            return ("is handed to %s.init_from_string: leading bytes that are not an alleged prefix are "
+                                    "dropped, so the string is read as a %s cap and re-serialises differently" % (
+                                        names_of(what), names_of(what)))
+                        if what[1] != k.qual:
+                            return "is handed to %s.init_from_string, not to %s" % (names_of(what), k.name)
+                        if argv[0] != "h":
+                            return None                 # value not tracked: nothing certain
+                        if argv[2] != cut or argv[1] != base:
+                            return ("hands %s.init_from_string input[%s:], not the input minus exactly its alleged prefix "
+                                    "(input[%d:])" % (k.name, argv[2], cut))
+                        if not argv[3]:
+                            return ("hands %s.init_from_string a trimmed copy of the input: trailing bytes are dropped "
+                                    "before the end-anchored pattern sees them, so cap+junk is read as this kind" % k.name)
+                        return None
+                    if what == ("unknown",):
+                        if cut == 0 and may_parse:
+                            return "becomes an UnknownURI although the string starts with %s.BASE_STRING" % k.name
+                        return None if argv == ("h", head, 0, True) else (
+                            "becomes an UnknownURI that does not hold the unmodified input")
+                    return "%s instead of returning a cap or UnknownURI(input)" % (
+                        "raises" if what == ("raise",) else "falls off the end of the function")
+                return f
+            out = [(base, {}, "", allowed(base, 0, True))]
+            for (_n, p) in prefixes:
+                out.append((p + base, {}, "", allowed(p + base, len(p), True)))
+            for j in JUNK:
+                out.append((j + base, {}, "", allowed(j + base, 0, False)))
+                for (_n, p) in prefixes:
+                    out.append((p + j + base, {}, "", allowed(p + j + base, 0, False)))
+            return out
+        scenario_rule(r, trimmed)
